@@ -880,7 +880,9 @@ func (e *Env) resolveIdentReturns() {
 	check(load.PkgGotypes, "gotypes", []wantReturn{
 		{what: "a selector whose X is a package name resolves to the imported package's path",
 			result: `r.Uses[` + selX + `].(*types.PkgName).Imported().Path()`,
-			cond:   `r.Uses != nil && ok(parent.(*SelectorExpr)) && parentField == "Sel" && ok(` + selX + `) && ok(r.Uses[` + selX + `]) && ok(r.Uses[` + selX + `].(*types.PkgName))`},
+			cond:   `r.Uses != nil && ok(parent.(*SelectorExpr)) && parentField == "Sel" && ok(` + selX + `) && ok(r.Uses[` + selX + `]) && ok(r.Uses[` + selX + `].(*types.PkgName))`,
+			// a missing Uses entry reads as a nil Object, on which the type assertion fails as well
+			alt: `r.Uses != nil && ok(parent.(*SelectorExpr)) && parentField == "Sel" && ok(` + selX + `) && ok(r.Uses[` + selX + `].(*types.PkgName))`},
 		{what: "any other used identifier resolves to its declaring package, except struct fields and universe objects",
 			result: `r.Uses[id].Pkg().Path()`,
 			cond:   `r.Uses != nil && !(ok(parent.(*SelectorExpr)) && parentField == "Sel") && ok(r.Uses[id]) && !(ok(r.Uses[id].(*types.Var)) && r.Uses[id].(*types.Var).IsField()) && r.Uses[id].Pkg() != nil`},
